@@ -215,8 +215,18 @@ def eval_case(job):
             if name == "edge_vectors":
                 x = x * s
                 # an edge (i<j) may flip under relabelling: compare up to sign, as a set
-                x, y = sortrows(np.where((x @ [1.0, 0.7, 0.3])[:, None] < 0, -x, x)), sortrows(np.where((y @ [1.0, 0.7, 0.3])[:, None] < 0, -y, y))
-                ok = close(y, x, float(np.max(np.abs(x))), 1e-8)
+                # match the rows as sets, each up to sign (a canonical sign by a fixed direction ties for edges orthogonal to it)
+                mag = float(np.max(np.abs(x)))
+                used = np.zeros(len(x), dtype=bool)
+                ok = x.shape == y.shape
+                for row in (y if ok else []):
+                    d = np.minimum(np.max(np.abs(x - row), axis=1), np.max(np.abs(x + row), axis=1))
+                    d[used] = np.inf
+                    j = int(np.argmin(d))
+                    if not d[j] <= 1e-8 * mag:
+                        ok = False
+                        break
+                    used[j] = True
             else:
                 if x.ndim == 2:
                     x, y = sortrows(x), sortrows(y)
